@@ -402,7 +402,194 @@ def do_intervalset(req):
     return {'status': 'ok', 'set': ' '.join('[%d,%d)' % (a, b) for a, b in s)}
 
 
-HANDLERS = {'intervalset': do_intervalset, 'theory': do_theory, 'history': do_history, 'solve': do_solve, 'transform': do_transform, 'loop': do_loop, 'pyparse': do_pyparse, 'gparse': do_gparse}
+def hf_str(x):
+    """head formula object (named tuples of theory/head.py) -> the model's notation, atoms by name"""
+    t = getattr(x, 'ast_type', None)
+    if t == 'TelAtom':
+        return '(at %s%s%s)' % ('' if x.positive else '-', x.name, ('(%s)' % ','.join(str(a) for a in x.arguments)) if x.arguments else '')
+    if t == 'TelNext':
+        return '(nx %d %d %s)' % (x.lhs, 1 if x.weak else 0, hf_str(x.rhs))
+    if t == 'TelUntil':
+        if x.lhs is None:
+            return '(un1 %d %s)' % (1 if x.until else 0, hf_str(x.rhs))
+        return '(un %d %s %s)' % (1 if x.until else 0, hf_str(x.lhs), hf_str(x.rhs))
+    if t == 'TelClause':
+        els = [hf_str(e) for e in x.elements]
+        r = els[0]
+        for e in els[1:]:
+            r = '(%s %s %s)' % ('and' if x.conjunctive else 'or', r, e)
+        return r
+    if t == 'TelNegation':
+        return '(neg %s)' % hf_str(x.rhs)
+    if t == 'TelConstant':
+        return '(cst %d)' % (1 if x.value else 0)
+    return '(?%s)' % t
+
+
+def leaf_str(x):
+    t = getattr(x, 'ast_type', None)
+    if t == 'TelAtom':
+        return '(A %s)' % hf_str(x)[4:-1]
+    if t == 'TelShift':
+        if x.lhs < 0:
+            return '(B %d %s)' % (-x.lhs, hf_str(x.rhs))
+        if x.lhs == 0 and getattr(x.rhs, 'ast_type', None) == 'TelNext':
+            return '(F %d %d %s)' % (x.rhs.lhs, 1 if x.rhs.weak else 0, hf_str(x.rhs.rhs))
+        if x.lhs == 0:
+            return '(B 0 %s)' % hf_str(x.rhs)
+        return '(SHIFT+%d %s)' % (x.lhs, hf_str(x.rhs))
+    return '(?%s)' % t
+
+
+def bf_str(f):
+    """body formula object (classes of theory/body.py, read through their private attributes) -> the model's notation, atoms by name"""
+    import telingo.theory.body as bd
+    g = lambda cls, name: getattr(f, '_%s__%s' % (cls, name))
+    if isinstance(f, bd.Atom):
+        args = g('Atom', 'arguments')
+        return '(at %s%s%s)' % ('' if g('Atom', 'positive') else '-', g('Atom', 'name'), ('(%s)' % ','.join(str(a) for a in args)) if args else '')
+    if isinstance(f, bd.BooleanConstant):
+        return '(cst %d)' % (1 if g('BooleanConstant', 'value') else 0)
+    if isinstance(f, bd.Negation):
+        return '(neg %s)' % bf_str(g('Negation', 'arg'))
+    if isinstance(f, bd.BooleanFormula):
+        return '(bin %s %s %s)' % (g('BooleanFormula', 'operator'), bf_str(g('BooleanFormula', 'lhs')), bf_str(g('BooleanFormula', 'rhs')))
+    if isinstance(f, bd.Previous):
+        return '(pv %d %d %s)' % (g('Previous', 'n'), 1 if g('Previous', 'weak') else 0, bf_str(g('Previous', 'arg')))
+    if isinstance(f, bd.Next):
+        return '(nx %d %d %s)' % (g('Next', 'n'), 1 if g('Next', 'weak') else 0, bf_str(g('Next', 'arg')))
+    if isinstance(f, bd.TelFormulaN):
+        u = {'>?': 1, '>*': 0}.get(f._op, 9)
+        fut = g('TelFormulaN', 'future')
+        ok = isinstance(fut, bd.Next) and getattr(fut, '_Next__arg') is f and getattr(fut, '_Next__n') == 1 and bool(getattr(fut, '_Next__weak')) == (u == 0)
+        tag = '' if ok else '!future'
+        if f._lhs is None:
+            return '(tn1%s %d %s)' % (tag, u, bf_str(f._rhs))
+        return '(tn2%s %d %s %s)' % (tag, u, bf_str(f._lhs), bf_str(f._rhs))
+    return '(?%s)' % type(f).__name__
+
+
+def do_headtheory(req):
+    """what HeadFormula.translate does, call by call: the formula object, the clauses (shifted and unfolded), and the rule added for every clause
+    (head atoms by name, body formulas as objects of the body theory); observed by wrapping functions of telingo.theory.head in THIS process"""
+    import telingo.theory.head as th
+    texts = req['texts']
+    imax = req.get('imax')
+    names = req['atoms']
+    calls = []
+    cur = [None]
+    o_translate, o_clause, o_shift = th.HeadFormula.translate, th.translate_clause, th.ClauseToRule.visit_TelShift
+
+    class FShim:
+        def __init__(self, c):
+            self._c, self.last = c, None
+
+        def __getattr__(self, n):
+            return getattr(self._c, n)
+
+        def add_formula(self, f):
+            self.last = self._c.add_formula(f)
+            return self.last
+
+    class BShim:
+        def __init__(self, b):
+            self._b, self.rules, self.named = b, [], {}
+
+        def __getattr__(self, n):
+            return getattr(self._b, n)
+
+        def add_rule(self, head, body=[], choice=False):
+            self.rules.append((list(head), list(body)))
+            return self._b.add_rule(head, body, choice)
+
+        def add_atom(self, sym=None):
+            r = self._b.add_atom(sym) if sym is not None else self._b.add_atom()
+            if sym is not None:
+                self.named[r] = sym
+            return r
+
+    class CShim:
+        def __init__(self, c, b):
+            self._c, self.backend = c, b
+
+        def __getattr__(self, n):
+            return getattr(self._c, n)
+
+    def sym_name(sym):
+        s = clingo.Function(sym.name, sym.arguments[:-1], sym.positive)
+        return str(s)
+
+    def w_translate(self, ctx, step):
+        base = []
+        for n in names:
+            sym = clingo.parse_term(n.lstrip('-'))
+            sym = clingo.Function(sym.name, list(sym.arguments) + [clingo.Number(step)], not n.startswith('-'))
+            if ctx.symbols[sym] is not None:
+                base.append(n)
+        rec = {'horizon': ctx.horizon, 'ts': getattr(self, '_HeadFormula__timestep'), 'step': step, 'formula': hf_str(getattr(self, '_HeadFormula__formula')),
+               'literals': len(getattr(self, '_HeadFormula__literals')), 'base': base, 'clauses': [], 'rules': []}
+        calls.append(rec)
+        cur[0] = rec
+        try:
+            return o_translate(self, ctx, step)
+        finally:
+            cur[0] = None
+
+    def w_clause(clause, ctx, step, body_literal):
+        clause = list(clause)
+        rec = cur[0]
+        b = BShim(ctx.backend)
+        rule = {'head': None, 'body': [], 'formula_literal_first': None}
+        if rec is not None:
+            rec['clauses'].append([leaf_str(l) for l in clause])
+            rec['rules'].append(rule)
+        cur.append(rule)
+        try:
+            r = o_clause(clause, CShim(ctx, b), step, body_literal)
+        finally:
+            cur.pop()
+        if b.rules:
+            head, body = b.rules[-1]
+            lit2name = {}
+            for a in ctx.symbols:
+                if a.literal != 0:
+                    lit2name.setdefault(a.literal, sym_name(a.symbol) + '@%d' % a.symbol.arguments[-1].number if a.symbol.arguments and a.symbol.arguments[-1].type == clingo.SymbolType.Number else str(a.symbol))
+            for l, sym in b.named.items():
+                lit2name[l] = sym_name(sym) + '@%d' % sym.arguments[-1].number
+            rule['head'] = [lit2name.get(x, '?%d' % x) for x in head]
+            rule['formula_literal_first'] = bool(body) and body[0] == body_literal
+            rule['nbody'] = len(body)
+        return r
+
+    def w_shift(self, x, ctx, step):
+        sh = FShim(ctx)
+        r = o_shift(self, x, sh, step)
+        if len(cur) > 1 and isinstance(cur[-1], dict):
+            cur[-1]['body'].append(bf_str(sh.last) if sh.last is not None else '(none)')
+        return r
+    th.HeadFormula.translate, th.translate_clause, th.ClauseToRule.visit_TelShift = w_translate, w_clause, w_shift
+    try:
+        prg = clingo.Control(['0', '--eq=0'], message_limit=0)
+        try:
+            with ProgramBuilder(prg) as bld:
+                fs, parts = tf.transform(texts, bld.add)
+        except Exception as e:  # noqa
+            r = exc_info(e)
+            r['stage'] = 'transform'
+            return r
+        try:
+            telingo.imain(prg, fs, parts, lambda m, s: None, imin=imax, imax=imax, istop='UNKNOWN')
+        except Exception as e:  # noqa
+            r = exc_info(e)
+            r['stage'] = 'imain'
+            r['calls'] = calls
+            return r
+    finally:
+        th.HeadFormula.translate, th.translate_clause, th.ClauseToRule.visit_TelShift = o_translate, o_clause, o_shift
+    return {'status': 'ok', 'calls': calls}
+
+
+HANDLERS = {'headtheory': do_headtheory, 'intervalset': do_intervalset, 'theory': do_theory, 'history': do_history, 'solve': do_solve, 'transform': do_transform, 'loop': do_loop, 'pyparse': do_pyparse, 'gparse': do_gparse}
 
 
 def main():
